@@ -13,7 +13,7 @@ Definition ex_glyph : sglyph :=
 Example c09_simple_nonvacuous :
   exists bytes, write_simple 0 ex_glyph = Some bytes
   /\ read_glyph bytes = Some (RSimple 2 [-32768; -1; 32767; 300] [3; 5] [1; 2; 3] (concat (g_contours ex_glyph))).
-Proof. eexists. split; vm_compute; reflexivity. Qed.
+Proof. eexists. split; [vm_compute; reflexivity|]. vm_compute. reflexivity. Qed.
 
 (* 600 identical flags: entries (f|REPEAT,255) (f|REPEAT,255) (f|REPEAT,87) and back *)
 Example c09_rle_600 :
@@ -28,7 +28,7 @@ Example c09_run_256_reads_back :
   let g := {| g_bbox := (0, 0, 0, 0); g_contours := [map (fun i => (Z.of_nat i + 1, 0, true)) (seq 0 256)]; g_instr := [] |} in
   exists bytes, write_simple 0 g = Some bytes /\
     read_glyph bytes = Some (RSimple 1 [0; 0; 0; 0] [255] [] (concat (g_contours g))).
-Proof. eexists. split; vm_compute; reflexivity. Qed.
+Proof. eexists. split; [vm_compute; reflexivity|]. vm_compute. reflexivity. Qed.
 (* the writer refuses (panics in the checked profile) a delta that does not fit i16, and an empty first contour *)
 Example c09_delta_overflow_refused :
   write_simple 0 {| g_bbox := (0, 0, 0, 0); g_contours := [[(-32768, 0, true); (32767, 0, true)]]; g_instr := [] |} = None.
